@@ -39,6 +39,6 @@ Definition h_framed (a : list sx) : sx :=
   | _ => err "arity"
   end.
 
-Definition table_kv : list (string * handler) :=
+Definition table : list (string * handler) :=
   [("update_kv", h_update_kv); ("rewrite_footer", h_rewrite_footer);
    ("footer_loc", h_footer_loc); ("framed", h_framed)].
